@@ -224,6 +224,13 @@ impl<'builder> Builder<'builder> {
             self.resolver.resolve_cipher(&self.params.cipher).ok_or(InitStage::GetCipherImpl)?;
         let cipher2 =
             self.resolver.resolve_cipher(&self.params.cipher).ok_or(InitStage::GetCipherImpl)?;
+        if self.s.is_some_and(|k| k.len() != s_dh.priv_len())
+            || self.e_fixed.is_some_and(|k| k.len() != e_dh.priv_len())
+            || self.rs.is_some_and(|k| k.len() != s_dh.pub_len())
+        {
+            return Err(InitStage::ValidateKeyLengths.into());
+        }
+
         let handshake_cipherstate = CipherState::new(cipher);
         let cipherstates = CipherStates::new(CipherState::new(cipher1), CipherState::new(cipher2))?;
 
